@@ -3145,6 +3145,9 @@ XPath::stepPattern(
 
         if(0 == context)
         {
+            // There is no parent for this step to match...
+            scoreHolder = eMatchScoreNone;
+
             // !!!!!!!!!!!!! Big ugly return here !!!!!!!!!!!!!!!!!!!
             return 0;
         }
